@@ -136,6 +136,59 @@ register(Job("C18", "history3_glob_chars", make(3, 3, "a.*?[]!-", True), tier="t
                   "functions": FUN, "assumptions": A, "bounds": "ids of length <= 3; 3 operations"}))
 
 
+def make_concurrent() -> Any:
+    """Two save() coroutines of one key started together on the loop: exactly one is accepted, the other raises
+    ArtifactAlreadyExists, and load returns the accepted value (write-once also under overlapping saves)."""
+    def mk() -> Any:
+        import asyncio
+
+        import ml_pipeline_engine.artifact_store.store.filesystem as fsmod
+        from ml_pipeline_engine.artifact_store.enums import DataFormat
+        from ml_pipeline_engine.artifact_store.errors import ArtifactAlreadyExists
+
+        fsmod.Path = mempath.MemPath
+        FMTS = (DataFormat.PICKLE, DataFormat.JSON)
+
+        def h(sym: Any) -> Tuple[str, Dict[str, Any]]:
+            k = sym.str("id", 2, "ab.")
+            sym.assume(len(k) >= 1)
+            f1, f2 = sym.choice("fmt_a", 2), sym.choice("fmt_b", 2)
+            same_ctx = sym.bool("same_context")
+            mempath.MemPath.FS = mempath.MemFS()
+            loop = VLoop(max_iterations=300)
+            st1 = fsmod.FileSystemArtifactStore(_Ctx(*CONTEXTS[0]), artifact_dir=mempath.MemPath("root"))
+            st2 = st1 if same_ctx else fsmod.FileSystemArtifactStore(_Ctx(*CONTEXTS[1]), artifact_dir=mempath.MemPath("root"))
+
+            async def both() -> Any:
+                return await asyncio.gather(st1.save(k, {"v": 1}, fmt=FMTS[f1]), st2.save(k, {"v": 2}, fmt=FMTS[f2]),
+                                            return_exceptions=True)
+
+            kind, res = loop.run_to_verdict(both())
+            label = None
+            if kind != "done":
+                label = "concurrent_saves:%s" % kind
+            else:
+                oks = [r is None for r in res]
+                rej = [isinstance(r, ArtifactAlreadyExists) for r in res]
+                if same_ctx:
+                    if not (sum(oks) == 1 and sum(rej) == 1):
+                        label = "write_once_broken_by_overlapping_saves:%s" % [type(r).__name__ for r in res]
+                    else:
+                        kind2, val = loop.run_to_verdict(st1.load(k))
+                        want = {"v": 1} if oks[0] else {"v": 2}
+                        if kind2 != "done" or val != want:
+                            label = "accepted_value_not_the_stored_one"
+                elif not all(oks):
+                    label = "contexts_interfere:%s" % [type(r).__name__ for r in res]
+            loop.shutdown()
+            info = {"digest": [label, same_ctx, f1, f2], "goals": ["same_ctx:%d" % int(same_ctx)], "summary": {}}
+            return (label or "ok"), info
+
+        return h
+
+    return mk
+
+
 # ------------------------------------------------------------------ AST-derived SMT-LIB query, unbounded id length
 def make_smtlib() -> Any:
     def mk() -> Any:
@@ -175,6 +228,12 @@ def make_smtlib() -> Any:
     return mk
 
 
+register(Job("C18", "overlapping_saves", make_concurrent(), tier="quick", budget_s=300, goals=("same_ctx:0", "same_ctx:1"),
+             doc={"template": "two save() coroutines of one key gathered on the virtual loop (same context / two contexts)",
+                  "symbolic": ["id: string 1..2 over {a,b,.}", "format of each save", "same context or not"],
+                  "functions": FUN, "assumptions": A + ["work handed to an executor (asyncio.to_thread / run_in_executor) runs at a "
+                                                      "later loop iteration (executor stub)"],
+                  "bounds": "2 overlapping saves"}))
 register(Job("C18", "smtlib_filename_scheme", make_smtlib(), tier="quick", budget_s=300, goals=("decided",),
              doc={"template": "SMT-LIB2 (QF_SLIA) query derived from the AST of filesystem.py: the f-string of the file name "
                               "written by save and the lookup (glob pattern or exact names) of _get_glob",
